@@ -115,7 +115,7 @@ void Exec::op_write(Client &c) {
 	T(strf("  write %s via=%s path=%s rv=%d bytes=%d hash=%s", fmt.c_str(), via.c_str(), path.c_str(), rv, stored ? (int)world.files[path].size() : -1, stored ? hex64(hashstr(world.files[path])).c_str() : "-"));
 	signature("write:" + fmt + ":" + via + ":" + o->life + strf(":%d", rv != 0));
 	if (trace && stored) { bool okz; std::string raw = raw_bytes(path, world.files[path], &okz); size_t pos = 0; int ln = 0; while (pos < raw.size() && ln < 60) { size_t e = raw.find('\n', pos); if (e == std::string::npos) e = raw.size(); out_line("F   " + raw.substr(pos, std::min<size_t>(e - pos, 300))); pos = e + 1; ln++; } }
-	FileInfo fi2; fi2.fmt = fmt; fi2.model = o->m; fi2.damaged = destructive || world.damaged_paths.count(path) != 0 || rv != 0 || !stored; fi2.kind = "prob"; fi2.precond = roundtrip_precondition(o->m);
+	FileInfo fi2; fi2.fmt = fmt; fi2.model = o->m; fi2.damaged = destructive || world.damaged_paths.count(path) != 0 || rv != 0 || !stored; fi2.kind = "prob"; fi2.precond = roundtrip_precondition(o->m) && !o->has_sos; fi2.sos = o->has_sos;
 	{ char *pn = mpq_QSget_probname(o->p), *on = mpq_QSget_objname(o->p);   // problem and objective names are written verbatim too (a name read from a damaged file may not be a token)
 		if ((pn && !plain_name(pn)) || (on && !plain_name(on))) fi2.precond = false; mpq_QSfree(pn); mpq_QSfree(on); } fi2.chain = o->from_file_chain;
 	files[path] = fi2; prob_paths.erase(std::remove(prob_paths.begin(), prob_paths.end(), path), prob_paths.end()); prob_paths.push_back(path);
@@ -200,7 +200,7 @@ void Exec::op_read(Client &c) {
 	c.objs.push_back(o);
 	if (c.objs.size() > 6) { mpq_QSfree_prob(c.objs[0]->p); c.objs.erase(c.objs.begin()); }
 	FileInfo src; if (known) src = fit->second;
-	o->from_file_chain = known ? src.chain + 1 : 0;
+	o->from_file_chain = known ? src.chain + 1 : 0; o->has_sos = known && src.sos;
 }
 
 // ------------------------------------------------------------------ damage (faults on stored bytes between write and read)
@@ -265,7 +265,12 @@ static std::string render_mps(const LP &m, long style) {
 	for (auto &r : m.rows) s += std::string(" ") + (r.sense == 'R' ? 'G' : r.sense) + " " + r.name + "\n";
 	s += "COLUMNS\n";
 	if (extra_free) s += " zdrop zfree 1\n";
+	// an SOS set around a run of columns (files in the wild carry them; the solver ignores the sets, the reader has to digest them)
+	bool sos = !ints && style % 13 == 7 && m.cols.size() >= 2; size_t sos_a = sos ? (size_t)(style / 13) % (m.cols.size() - 1) : 0, sos_b = sos ? std::min(m.cols.size(), sos_a + 2 + (size_t)(style / 91) % 3) : 0;
+	std::string sos_tag = std::string(style % 2 ? " S1" : " S2") + " SOS 'MARKER' ";
 	for (size_t j = 0; j < m.cols.size(); j++) { const MCol &c = m.cols[j]; bool any = false;
+		if (sos && j == sos_b) s += sos_tag + "'SOSEND'\n";
+		if (sos && j == sos_a) s += sos_tag + "'SOSORG'\n";
 		bool want_int = ints && (j + (size_t)(style / 4)) % 3 == 0;
 		if (want_int != in_int) { s += std::string(" MARKER MARKER ") + (want_int ? "'INTORG'" : "'INTEND'") + "\n"; in_int = want_int; }
 		if (extra_free && j + 1 == m.cols.size()) for (auto &r : m.rows) { auto it = r.coef.find((int)j); if (it != r.coef.end() && it->second != 0) { s += " " + c.name + " " + r.name + " 1\n"; break; } }   // the same entry twice
@@ -273,6 +278,7 @@ static std::string render_mps(const LP &m, long style) {
 		for (auto &r : m.rows) { auto it = r.coef.find((int)j); if (it != r.coef.end() && it->second != 0) { s += " " + c.name + " " + r.name + " " + lit(it->second, style + (long)j) + "\n"; any = true; } }
 		if (!any) s += " " + c.name + " obj 0\n"; }
 	if (in_int) s += " MARKER MARKER 'INTEND'\n";
+	if (sos && sos_b >= m.cols.size()) s += sos_tag + "'SOSEND'\n";
 	s += "RHS\n"; for (auto &r : m.rows) if (r.rhs != 0) s += " RHS " + r.name + " " + lit(r.rhs, style) + "\n";
 	bool anyr = false; for (auto &r : m.rows) if (r.sense == 'R') anyr = true;
 	if (anyr) { s += "RANGES\n"; for (auto &r : m.rows) if (r.sense == 'R') s += " RNG " + r.name + " " + lit(r.range, style) + "\n"; }
@@ -292,7 +298,8 @@ void Exec::op_foreign(Client &c) {
 	std::string fmt = op->s("fmt", "LP") == "MPS" ? "MPS" : "LP"; std::string path = io_path(op, fmt == "LP" ? ".lp" : ".mps");
 	std::string text = fmt == "LP" ? render_lp(*lp, op->i("style", 0)) : render_mps(*lp, op->i("style", 0));
 	world.files[path] = store_bytes(path, text);
-	FileInfo f; f.fmt = fmt; f.model = *lp; f.kind = "prob"; f.damaged = true; f.foreign = true;   // "damaged": the round-trip law of C08/C09 is about the library's own writer only
+	{ long st = op->i("style", 0); if (st < 0) st = -st; bool s13 = st % 13 == 7 && st % 4 != 1 && lp->cols.size() >= 2; if (fmt == "MPS" && s13) probe("foreign.sos_sets"); }
+	FileInfo f; f.fmt = fmt; f.model = *lp; f.kind = "prob"; f.damaged = true; f.foreign = true; { long st = op->i("style", 0); f.sos = fmt == "MPS" && st % 13 == 7 && st % 4 != 1 && lp->cols.size() >= 2; }   // "damaged": the round-trip law of C08/C09 is about the library's own writer only
 	files[path] = f; prob_paths.erase(std::remove(prob_paths.begin(), prob_paths.end(), path), prob_paths.end()); prob_paths.push_back(path);
 	T(strf("  foreign %s %s %d bytes hash=%s", fmt.c_str(), path.c_str(), (int)text.size(), hex64(hashstr(text)).c_str()));
 }
